@@ -241,12 +241,25 @@ class Ctx:
         cmd += ["./" + pkg] + list(args)
         logf = os.path.join(self.out, "go_%s_%s.log" % (pkg.replace("/", "_"), (run or "all").strip("^$")))
         t0 = time.time()
+        # tmpfs scratch of the driver: one directory per driver run, removed when the driver has finished
+        # (also when it crashed or was killed)
+        shm = None
+        if os.path.isdir("/dev/shm"):
+            try:
+                import tempfile
+                shm = tempfile.mkdtemp(prefix="verif-run-", dir="/dev/shm")
+                e["VERIF_SHM_BASE"] = shm
+            except OSError:
+                shm = None
         with open(logf, "w") as lf:
             try:
                 p = subprocess.run(cmd, cwd=HARNESS, stdout=lf, stderr=subprocess.STDOUT, timeout=timeout + 60, env=e)
                 rc = p.returncode
             except subprocess.TimeoutExpired:
                 rc = -9
+            finally:
+                if shm:
+                    shutil.rmtree(shm, ignore_errors=True)
         txt = open(logf, errors="replace").read()
         self.log("go test %s -run %s: rc=%s %.1fs" % (pkg, run, rc, time.time() - t0))
         res = dict(rc=rc, log=logf, text=txt, wall=time.time() - t0)
